@@ -325,6 +325,23 @@ func runCheck(chk *Check, tier, replay string, keep bool, only string) int {
 		}
 	}
 
+	if chk.ID == "CONF" {
+		// pass-through conformance: gnet's own tests on the instrumented tree, scheduler detached
+		b := built[0]
+		wd := filepath.Join(filepath.Dir(b.bin), "conf")
+		_ = os.MkdirAll(wd, 0o755)
+		cmd := exec.Command("unshare", "-n", "sh", "-c", "ip link set lo up; exec "+b.bin+" -test.run '^"+b.u.Test+"$' -test.count=1 -test.timeout=20m")
+		cmd.Dir = wd
+		cmd.Env = goEnv()
+		out, err := cmd.CombinedOutput()
+		fmt.Print(tail(string(out), 12))
+		if err != nil {
+			fmt.Fprintf(os.Stderr, "\nCONF: gnet's own tests FAILED on the instrumented tree: %v\n", err)
+			return 2
+		}
+		fmt.Printf("\nCONF: gnet's own tests pass on the instrumented tree with the scheduler detached (%.0fs)\n", time.Since(t0).Seconds())
+		return 0
+	}
 	if rv != nil {
 		b := built[0]
 		cmd := exec.Command(b.bin, "-test.run", "^"+b.u.Test+"$", "-test.timeout", "0", "-test.v")
